@@ -460,6 +460,38 @@ let cmd_rt (args : string list) : string =
             ^ " spec=" ^ (if spec then "1" else "0") ^ " op_ok=" ^ (if okp then "1" else "0") ^ " wf=" ^ (if rt_wf b then "1" else "0"))
   | _ -> "err badcmd"
 
+(* ---------- XML read paths (Crdt/XmlWalk.v): every way of reading a node of a tree given by its item structure ---------- *)
+(* rows "c:k,d,K,blen,clen,kid;kid/..." with K = e | t | f ; answer: the model's observation of one node in a canonical text *)
+let xw_parse_rows (s : string) =
+  List.map (fun r -> match String.split_on_char ',' r with
+    | [i; d; k; bl; cl; kids] ->
+      let (c, ck) = parse_ck i in
+      ((((({ cl = c; ck = ck }, d = "1"), (match k with "e" -> Xw_k_elem [] | "t" -> Xw_k_text | _ -> Xw_k_frag)), nat_of_int (int_of_string bl)), nat_of_int (int_of_string cl)),
+       (if kids = "" then [] else List.map (fun x -> let (c, k) = parse_ck x in { cl = c; ck = k }) (String.split_on_char ';' kids)))
+    | _ -> failwith "row") (String.split_on_char '/' s)
+let xw_pid (i : id) = print_ck (i.cl, i.ck)
+let xw_pids l = "[" ^ String.concat " " (List.map xw_pid l) ^ "]"
+let xw_poid = function None -> "-" | Some i -> xw_pid i
+let xw_poids l = "[" ^ String.concat " " (List.map xw_poid l) ^ "]"
+let rec int_of_nat (x : nat) : int = match x with O -> 0 | S y -> 1 + int_of_nat y
+let cmd_xw (args : string list) : string =
+  match args with
+  | ["obs"; rows; root; node] ->
+    let (rc, rk) = parse_ck root and (nc, nk) = parse_ck node in
+    (match xw_build (xw_parse_rows rows) { cl = rc; ck = rk } with
+     | None -> "err build"
+     | Some t ->
+       let wf = xw_wfb t in
+       let spec = (match xw_find t { cl = nc; ck = nk } with Some c -> xw_check_spec c | None -> false) in
+       (match xw_observe t { cl = nc; ck = nk } with
+        | None -> "err node-not-found"
+        | Some (((_, frag), sib), par) ->
+          let f = (match frag with None -> "-" | Some ((((len, ch), first), gets), succ) ->
+                    "len=" ^ string_of_int (int_of_nat len) ^ " children=" ^ xw_pids ch ^ " first=" ^ xw_poid first ^ " gets=" ^ xw_poids gets ^ " successors=" ^ xw_pids succ) in
+          let sb = (match sib with None -> "-" | Some ((fw, bk), mixed) -> "fwd=" ^ xw_pids fw ^ " back=" ^ xw_pids bk ^ " mixed=" ^ xw_poids mixed) in
+          "ok " ^ f ^ " | " ^ sb ^ " | parent=" ^ xw_poid par ^ " | wf=" ^ (if wf then "1" else "0") ^ " spec=" ^ (if spec then "1" else "0")))
+  | _ -> "err badcmd"
+
 (* ---------- codecs ---------- *)
 let print_idm (v : (n * ((n * n) * ((n list * any) option) list) list) list) : string =
   let pa = function None -> "?" | Some (nm, vl) -> rawhex nm ^ "=" ^ print_any vl in
@@ -776,6 +808,7 @@ let dispatch (line : string) : string =
   | "ADL" :: args -> cmd_adl args
   | "ITG" :: args -> cmd_itg args
   | "RT" :: args -> cmd_rt args
+  | "XW" :: args -> cmd_xw args
   | "DEC" :: args -> cmd_dec args
   | "ENC" :: args -> cmd_enc args
   | ["PING"] -> "ok pong"
